@@ -203,7 +203,8 @@ class Ctx:
         self.samples = []
         self.hist = {}
         self.disagreements = []  # dict(function, case, line, model, real)
-        self.failures = []  # monitor failures: dict(key, what, case)
+        self.failures = []  # monitor failures: dict(key, what, case); at most 5 kept per key
+        self.fail_per_key = {}
         self.exhaustive = []
         self.notes = []
         self.max_pending = 200000
@@ -247,7 +248,9 @@ class Ctx:
     def fail(self, key: str, what: str, case):
         """a monitor failure: the REAL code breaks the property on `case`"""
         self.bump("monitor-failure:" + key)
-        if len(self.failures) < 50:
+        n = self.fail_per_key.get(key, 0)
+        self.fail_per_key[key] = n + 1
+        if n < 5 and len(self.fail_per_key) <= 200:
             self.failures.append(dict(key=key, what=what, case=case))
 
     def elapsed(self):
